@@ -272,6 +272,11 @@ func (e *env) frame(rng *rand.Rand) []byte {
 		}
 		msg := vh.DHCP4(1, uint32(1000+k), 0, netip.Addr{}, netip.Addr{}, netip.Addr{}, netip.Addr{}, m, opts)
 		return vh.FrameIP4UDP(m, vh.Bcast, netip.IPv4Unspecified(), netip.MustParseAddr("255.255.255.255"), 68, 67, msg)
+	case x < 91: // a DHCP server message addressed to the server port (an OFFER relayed / reflected to port 67)
+		y := a.As4()
+		opts := []vh.DHCP4Opt{{Code: 53, Data: []byte{byte(2 + 3*rng.Intn(2))}}, {Code: 54, Data: y[:]}}
+		msg := vh.DHCP4(2, uint32(2000+k), 0, netip.Addr{}, a, u.Cfg.RouterIP, netip.Addr{}, m, opts)
+		return vh.FrameIP4UDP(vh.RouterMAC, vh.Bcast, u.Cfg.RouterIP, netip.MustParseAddr("255.255.255.255"), 68, 67, msg)
 	case x < 96: // mDNS response naming the sender
 		p := vh.MDNSResponse(0, "dev"+strconv.Itoa(k), a)
 		return vh.FrameIP4UDP(m, net.HardwareAddr{0x01, 0, 0x5e, 0, 0, 0xfb}, a, netip.MustParseAddr("224.0.0.251"), 5353, 5353, p)
